@@ -222,7 +222,9 @@ def _ops_for(c):
 
 def impl(c):
     ops = _ops_for(c)
-    R = prov.Runner(c["oidc"], c["jwt"], usage=c.get("usage"))
+    # histories with an export / import: the configuration pins the key material (signing keys in a key file), as it must for a restore
+    # into a fresh instance to make sense at all — a session-manager-only import does not carry the provider's signing keys
+    R = prov.Runner(c["oidc"], c["jwt"], usage=c.get("usage"), keys="pwsalt" if any(o[0] == "restore" for o in ops) else None)
     steps = []
     for o in ops:
         if o[0] == "restore":
